@@ -245,7 +245,7 @@ def mkp(i, rnd, strings=STRINGS, nums=NUMS):
     return Point(time=T0 + timedelta(seconds=rnd.choice([0, 1, 1, 2, 5]), microseconds=rnd.choice([0, 1, 999999])), measurement=rnd.choice(strings[:7] + ["m0", "m1"]), tags=tags, fields=fields)
 
 
-SAFE = ["x", "y", "a b", "m0", "m1", "k"]
+SAFE = ["x", "y", "a b", "m0", "m1", "k", "c\rr\r\nn"]  # the last one: CR and CRLF inside a value (what newline translation would destroy)
 
 
 def safe_point(rnd):
@@ -381,6 +381,16 @@ def c08_inner(F, seed):
             if gts != exp:
                 k = next(i for i in range(len(exp)) if i >= len(gts) or gts[i] != exp[i])
                 F.note("get_timestamps differs from the stored instants at %s (%s)" % (exp[k], storage))
+            if storage == "csv":
+                # the storage-scan branch of the getter (no index): a second, non-indexing database object on the same file
+                n += 1
+                db.storage._handle.flush()
+                db2 = TinyFlux(db.storage._path, auto_index=False)
+                gts2 = db2.get_timestamps()
+                db2.close()
+                if gts2 != exp or any(x.utcoffset() != timedelta(0) for x in gts2):
+                    k = next((i for i in range(len(exp)) if i >= len(gts2) or gts2[i] != exp[i]), 0)
+                    F.note("get_timestamps without an index differs from the stored instants at %s: %s (%s)" % (exp[k], gts2[k] if k < len(gts2) else None, storage))
             # comparisons at microsecond resolution in every zone of the comparison value
             for t in instants[2:5]:
                 for z in zones:
@@ -452,7 +462,7 @@ def c08(tier, seed, F):
 def op_list(rnd, k):
     ops = []
     for _ in range(k):
-        ops.append(rnd.choice(["ins", "ins", "ins", "ooo", "insm", "get", "contains", "rm", "rm0", "upd", "upd0", "rmall", "drop", "len", "search", "reindex", "getters", "updsame", "updsame_q"]))
+        ops.append(rnd.choice(["ins", "ins", "ins", "ooo", "insm", "get", "contains", "rm", "rm0", "upd", "upd0", "rmall", "drop", "len", "search", "reindex", "getters", "updsame", "updsame_q", "rmf_twice", "upd_mixed"]))
     return ops
 
 
@@ -489,11 +499,35 @@ def apply_op(db, model, op, rnd, compact=False):
     elif op == "rm":
         db.remove(MeasurementQuery() == "m0")
         return [k for k in model if k[1] != "m0"]
+    elif op == "rmf_twice":
+        # two fresh points, the first of which the remove deletes while the second (stored after it) stays
+        tmax = max([k[0] for k in model], default=T0)
+        for j_, xv in enumerate((1, 2)):
+            q_ = Point(time=tmax + timedelta(seconds=1 + j_), measurement="m0", tags={"k": "rmf"}, fields={"x": xv})
+            db.insert(copy.deepcopy(q_), compact_key_prefixes=compact)
+            model = model + [pkey(q_)]
+        n1 = db.remove(FieldQuery().x == 1)
+        snap = open(db.storage._path, "rb").read() if hasattr(db.storage, "_path") else None
+        n2 = db.remove(FieldQuery().x == 1)
+        if n2 != 0 or (snap is not None and open(db.storage._path, "rb").read() != snap):
+            raise AssertionError("the same remove repeated at once is not a no-op (returned %d, file %s)" % (n2, "changed" if snap is not None and open(db.storage._path, "rb").read() != snap else "unchanged"))
+        return [k for k in model if dict(k[3]).get("x") != 1]
     elif op == "rm0":
         db.remove(MeasurementQuery() == "nope")
     elif op == "upd":
         db.update(MeasurementQuery() == "m1", tags={"u": "é"})
         return [(k[0], k[1], tuple(sorted(dict(k[2], u="é").items())), k[3]) if k[1] == "m1" else k for k in model]
+    elif op == "upd_mixed":
+        # an update whose query matches rows that already carry the new value together with rows that do not: all of them must survive
+        tmax = max([k[0] for k in model], default=T0)
+        a_ = Point(time=tmax + timedelta(seconds=1), measurement="m1", tags={"k": "mix"}, fields={"x": 7})
+        db.insert(copy.deepcopy(a_), compact_key_prefixes=compact)
+        db.update(MeasurementQuery() == "m1", tags={"u": "\u00e9"})
+        b_ = Point(time=tmax + timedelta(seconds=2), measurement="m1", tags={"k": "mix2"}, fields={"x": 8})
+        db.insert(copy.deepcopy(b_), compact_key_prefixes=compact)
+        db.update(MeasurementQuery() == "m1", tags={"u": "\u00e9"})
+        model = model + [pkey(a_), pkey(b_)]
+        return [(k[0], k[1], tuple(sorted(dict(k[2], u="\u00e9").items())), k[3]) if k[1] == "m1" else k for k in model]
     elif op == "upd0":
         db.update(MeasurementQuery() == "nope", tags={"u": "w"})
     elif op == "updsame":
@@ -593,6 +627,9 @@ def c15(tier, seed, F):
                 raised = None
                 try:
                     model = apply_op(db, model, op, rnd, compact=compact)
+                except AssertionError as ex:
+                    F.note(str(ex))
+                    raised = ex
                 except Exception as ex:
                     raised = ex
                 n += 1
